@@ -121,8 +121,8 @@ Qed.
 Lemma rc4_ksa_length key : length (rc4_ksa key) = 256%nat.
 Proof. unfold rc4_ksa. rewrite ksa_loop_length. reflexivity. Qed.
 
-(* swap really exchanges the two entries (checked on a sample, plus the general statement
-   for the element lists used by RC4 is exercised by the vectors) *)
+(* swap on a sample: both argument orders, equal indices, end points, out-of-range index
+   (list unchanged) *)
 Example swap_example :
   swap 1 3 [10; 11; 12; 13; 14] = [10; 13; 12; 11; 14] /\
   swap 3 1 [10; 11; 12; 13; 14] = [10; 13; 12; 11; 14] /\
